@@ -36,6 +36,7 @@ type E2Spec struct {
 	BadIndex   bool   `json:"bad_index"`  // a payload with validator index >= N
 	Stale      bool   `json:"stale"`      // stale timeouts
 	Skip       bool   `json:"skip"`       // ledger jumps two heights (sync), then Reset
+	Skip1      bool   `json:"skip1"`      // ledger advances one height by sync (block obtained elsewhere), then Reset
 	NoTimeout  bool   `json:"no_timeout"` // timer events excluded
 	TxB        []H    `json:"tx_b"`       // transactions of proposal B (default [102 103])
 	TxA        []H    `json:"tx_a"`       // transactions of proposal A (default [101])
@@ -357,6 +358,9 @@ func (w *World) e2Enabled() []Event {
 	}
 	if sp.Skip && !x.pendingReset && w.skips < 1 {
 		evs = append(evs, Event{K: "skip", N: x.id})
+	}
+	if sp.Skip1 && !x.pendingReset && w.skips < 1 {
+		evs = append(evs, Event{K: "skip", N: x.id, A: 1})
 	}
 	for i, s := range w.e2.syms {
 		if p := s.mk(w); p != nil {
